@@ -114,24 +114,15 @@ func c19ToAddr(c *Ctx) {
 		}
 		// conditions: len(parts)==2 ; ParseUint err == nil with base 10, 16 bits; proto string == "tcp"/"udp"
 		okParts, okPort, okProto := false, false, false
-		var parts ssa.Value
 		var pu *ssa.Call
 		for _, dc := range conds {
 			b, ok := dc.V.(*ssa.BinOp)
 			if !ok {
 				continue
 			}
-			if call, ok := b.X.(*ssa.Call); ok {
-				if bi, ok := call.Call.Value.(*ssa.Builtin); ok && bi.Name() == "len" {
-					if n, isC := ConstInt(b.Y); isC && n == 2 && ((b.Op == token.NEQ && !dc.Pol) || (b.Op == token.EQL && dc.Pol)) {
-						if sp, ok := call.Call.Args[0].(*ssa.Call); ok && FuncIs(sp.Call.StaticCallee(), "strings", "Split") && sp.Call.Args[0] == ssa.Value(fn.Params[0]) {
-							if sep, _ := ConstString(sp.Call.Args[1]); sep == "/" {
-								okParts = true
-								parts = sp
-							}
-						}
-					}
-				}
+			if src, sep, ok := exactlyTwoParts(dc); ok && sep == "/" && src == ssa.Value(fn.Params[0]) {
+				okParts = true
+				_ = src
 			}
 			if ex, ok := b.X.(*ssa.Extract); ok && ex.Index == 1 && IsNilConst(b.Y) && ((b.Op == token.NEQ && !dc.Pol) || (b.Op == token.EQL && dc.Pol)) {
 				if call, ok := ex.Tuple.(*ssa.Call); ok && FuncIs(call.Call.StaticCallee(), "strconv", "ParseUint") {
@@ -144,9 +135,9 @@ func c19ToAddr(c *Ctx) {
 				}
 			}
 			if s, ok := ConstString(b.Y); ok && s == proto && b.Op == token.EQL && dc.Pol {
-				okProto = parts != nil && Render(b.X) == Render(parts)+"[0]"
-				if parts == nil {
-					okProto = strings.HasSuffix(Render(b.X), "[0]")
+				// the protocol is the part of the input before its single '/'
+				if src, sep, idx, isPart := splitPartOf(b.X); isPart && sep == "/" && idx == 0 && src == ssa.Value(fn.Params[0]) {
+					okProto = true
 				}
 			}
 		}
@@ -586,7 +577,57 @@ func c19Run(c *Ctx) {
 			}
 		}
 	}
+	// third form: no flag at all – `for k := range hc.ports { if compareAddr(k, addr) { …; continue nextPort } }`: from the edge on
+	// which an existing key matched, neither sink can be reached before the next port string's ToAddr
+	dupDirect := false
 	if dupIf == nil {
+		for _, b := range run.Blocks {
+			if len(b.Instrs) == 0 || !tcall.Block().Dominates(b) {
+				continue
+			}
+			iff, ok := b.Instrs[len(b.Instrs)-1].(*ssa.If)
+			if !ok {
+				continue
+			}
+			atom, pol0 := condAtom(iff.Cond)
+			call, ok := atom.(*ssa.Call)
+			if !ok || !isCompareAddr(c.P, call.Call.StaticCallee()) {
+				continue
+			}
+			isKey := func(v ssa.Value) bool {
+				ex, ok := v.(*ssa.Extract)
+				if !ok || ex.Index != 1 {
+					return false
+				}
+				nx, ok := ex.Tuple.(*ssa.Next)
+				if !ok {
+					return false
+				}
+				rg, ok := nx.Iter.(*ssa.Range)
+				return ok && isPortsLoad(rg.X)
+			}
+			a0, a1 := call.Call.Args[0], call.Call.Args[1]
+			if !((isKey(a0) && Unwrap(a1) == addrV) || (isKey(a1) && Unwrap(a0) == addrV)) {
+				continue
+			}
+			matchIdx := 0
+			if !pol0 {
+				matchIdx = 1
+			}
+			start := b.Succs[matchIdx]
+			reach := ReachBlocks([]*ssa.BasicBlock{start}, nil, map[*ssa.BasicBlock]bool{tcall.Block(): true})
+			if !reach[mapUpd.Block()] && !reach[addAddr.Block()] {
+				dupDirect = true
+				c.Ok("duplicate-detection", "duplicate flag", p.InstrPos(iff), "a match with an existing key (compareAddr(range key of hc.ports, addr)) leaves for the next port string")
+				for _, sn := range []string{"hc.ports[addr]=…", "AddAddress(addr)"} {
+					c.Ok("port-sinks-guarded", "not-duplicate before "+sn, p.InstrPos(iff), "unreachable from the edge on which an existing key matched")
+				}
+			}
+		}
+	}
+	if dupDirect {
+		// decided above
+	} else if dupIf == nil {
 		c.Violate("duplicate-detection", "duplicate flag", p.InstrPos(tcall), "no branch on a flag that is set exactly when compareAddr(existing key of hc.ports, addr) holds: first-wins for compatible duplicate entries is not enforced")
 	} else {
 		c.Ok("duplicate-detection", "duplicate flag", p.InstrPos(dupIf), "flag set under compareAddr(range key of hc.ports, addr)")
